@@ -11,6 +11,7 @@ import (
 	"sort"
 	"strings"
 	"sync"
+	"sync/atomic"
 	"time"
 
 	"wa-lang.org/wa/internal/zzverif/mc"
@@ -80,6 +81,12 @@ func render(units []unit) (src string) {
 		fmt.Fprintf(&b, "import %q\n", im)
 	}
 	b.WriteString("\n")
+	// a refined rendering may contain no item that uses an import any more
+	for _, im := range il {
+		if use, ok := dummyUse[im]; ok {
+			fmt.Fprintf(&b, "var _ = %s\n", use)
+		}
+	}
 	b.WriteString(decls.String())
 	b.WriteString(cases.String())
 	return b.String()
@@ -228,6 +235,16 @@ func Run(r *mc.Run, pool *mc.Pool, fams []Family, opt Options) {
 	}
 }
 
+var (
+	buildFailedMu  sync.Mutex
+	buildFailed    = map[string]bool{}
+	skippedSameKey atomic.Int64
+)
+
+// SkippedSameKey is the number of items not built individually because another item with the
+// same violation key had already failed to build on its own.
+func SkippedSameKey() int64 { return skippedSameKey.Load() }
+
 const sep = "\x02\n"
 
 // splitItems cuts a case output into per-item segments. complete = number of items whose
@@ -275,9 +292,31 @@ func runUnits(r *mc.Run, pool *mc.Pool, fam *Family, units []unit, opt Options, 
 			}
 			u := us[0]
 			if len(u.items) > 1 {
-				h := len(u.items) / 2
-				todo = append(todo, runUnits(r, pool, fam, []unit{{u.g, u.items[:h]}}, opt, cmp)...)
-				todo = append(todo, runUnits(r, pool, fam, []unit{{u.g, u.items[h:]}}, opt, cmp)...)
+				// Try the first item alone. If it fails to build on its own, every other item
+				// of the group with the same violation key would only repeat that key: those
+				// are not built one by one (counted in skipped_same_key_after_build_failure).
+				todo = append(todo, runUnits(r, pool, fam, []unit{{u.g, u.items[:1]}}, opt, cmp)...)
+				rest := u.items[1:]
+				buildFailedMu.Lock()
+				failed := buildFailed[opt.KeyPrefix+"|"+u.g.Items[u.items[0]].Key]
+				buildFailedMu.Unlock()
+				if failed {
+					var keep []int
+					for _, ii := range rest {
+						if u.g.Items[ii].Key != u.g.Items[u.items[0]].Key {
+							keep = append(keep, ii)
+						}
+					}
+					skippedSameKey.Add(int64(len(rest) - len(keep)))
+					rest = keep
+				}
+				if len(rest) > 0 {
+					h := (len(rest) + 1) / 2
+					todo = append(todo, runUnits(r, pool, fam, []unit{{u.g, rest[:h]}}, opt, cmp)...)
+					if h < len(rest) {
+						todo = append(todo, runUnits(r, pool, fam, []unit{{u.g, rest[h:]}}, opt, cmp)...)
+					}
+				}
 				continue
 			}
 			if o.goRes[0].Status != "ok" {
@@ -289,6 +328,9 @@ func runUnits(r *mc.Run, pool *mc.Pool, fam *Family, units []unit, opt Options, 
 			}
 			it := u.g.Items[u.items[0]]
 			r.Evals.Add(1)
+			buildFailedMu.Lock()
+			buildFailed[opt.KeyPrefix+"|"+it.Key] = true
+			buildFailedMu.Unlock()
 			r.Report(opt.KeyPrefix+"|"+it.Key+"|compile", fmt.Sprintf("%s/%s %s: "+refName(opt)+" runs it (output %q) but the "+implName(opt)+" pipeline fails: %s", fam.Name, u.g.Name, it.Desc, clip(o.goRes[0].Out), firstLines(what, 3)),
 				map[string]interface{}{"family": fam.Name, "group": u.g.Name, "item": it.Desc, "go_source": srcs[pi]})
 			continue
@@ -373,4 +415,14 @@ func firstLines(s string, n int) string {
 		ls = ls[:n]
 	}
 	return strings.Join(ls, " / ")
+}
+
+// dummyUse gives, per import path, an expression that references the package, so that a
+// rendering in which no remaining item uses the import still compiles.
+var dummyUse = map[string]string{
+	"math":    "math.Pi",
+	"strings": "strings.Contains",
+	"bytes":   "bytes.Contains",
+	"strconv": "strconv.Itoa",
+	"sort":    "sort.Ints",
 }
